@@ -1620,6 +1620,30 @@ pub fn generate(rng: &mut Rng, prof: Profile, cfg: &GenCfg) -> GenModule {
                 _ => unreachable!(),
             };
             let kind = if has(flags, F_REF) || has(flags, F_BULK) { rng.below(8) } else { 0 };
+            // GC / function-references profiles, 1 in 4 of the expression-form segments: the segment is declared with a concrete typed
+            // function reference `(ref null $t)` and holds only functions of type $t (and null references of that type)
+            if has(flags, F_GC) && kind >= 4 && rng.chance(1, 4) {
+                let t = g.func_types[funcs[0] as usize];
+                let same: Vec<u32> = (0..nfuncs_total).filter(|f| g.func_types[*f as usize] == t).collect();
+                let heap = wasm_encoder::HeapType::Concrete(t);
+                let rt = RefType { nullable: true, heap_type: heap };
+                let texprs: Vec<ConstExpr> =
+                    (0..rng.range(1, 4)).map(|_| if rng.chance(1, 4) { ConstExpr::ref_null(heap) } else { ConstExpr::ref_func(*rng.pick(&same)) }).collect();
+                match kind {
+                    4 | 6 if !func_tables.is_empty() => {
+                        let tb = *rng.pick(&func_tables);
+                        elem_sec.active(Some(tb), &offset, Elements::Expressions(rt, Cow::Owned(texprs)));
+                    }
+                    5 => {
+                        elem_sec.passive(Elements::Expressions(rt, Cow::Owned(texprs)));
+                    }
+                    _ => {
+                        elem_sec.declared(Elements::Expressions(rt, Cow::Owned(texprs)));
+                    }
+                }
+                n_elems += 1;
+                continue;
+            }
             match kind {
                 0 | 2 | 4 | 6 if func_tables.is_empty() => {
                     if has(flags, F_REF) || has(flags, F_BULK) {
